@@ -86,14 +86,14 @@ def context(abstract_syntax, transfer_syntax="1.2.840.10008.1.2", cx_id=5):
     return cx
 
 
-def run_scp(service_cls, req, cx, handlers, established=lambda n: True, setup=None):
+def run_scp(service_cls, req, cx, handlers, established=lambda n: True, setup=None, method="SCP"):
     """returns (sent responses, exception that escaped SCP or None, assoc)"""
     a = StubAssoc(handlers, established)
     svc = service_cls(a)
     if setup:
         setup(svc)
     try:
-        svc.SCP(req, cx)
+        getattr(svc, method)(req, cx)
         err = None
     except Exception as e:
         err = e
